@@ -69,6 +69,8 @@ HARNESS.update({
 HARNESS.update({
     'u9_arb_choose_index_onto': _h(['C12'], True, 'all n in 1..=65536 and all t < n: an explicit 1- or 2-byte fuzzer input selects t',
                                    'source.rs: choose_index (Arbitrary) is onto', ['C12']),
+    'u9_arb_gen_range_onto': _h(['C12'], True, 'all n in 1..=65536 and all t < n: an explicit 1- or 2-byte fuzzer input selects t',
+                                   'source.rs: gen_range(0, n) (Arbitrary) is onto', ['C12']),
     'u9_arb_gen_bool_both': _h(['C12'], True, 'inputs 00 and 01', 'source.rs: gen_bool (Arbitrary) takes both values', ['C12']),
 })
 HARNESS.update({
@@ -110,7 +112,7 @@ PROPS = {
         ]),
     'C12': dict(
         title='Every opcode of the protocol vocabulary is reachable',
-        verus=['core'], kani_quick=['u7_tables_exact', 'u9_arb_choose_index_onto', 'u9_arb_gen_bool_both'],
+        verus=['core'], kani_quick=['u7_tables_exact', 'u9_arb_choose_index_onto', 'u9_arb_gen_range_onto', 'u9_arb_gen_bool_both'],
         level='other',
         technique='contracts: per-arm completeness of can_emit on a witness state, get_valid_opcodes keeps every table entry whose guard must say yes, weighted_choice returns exactly the '
                   'alternative the entropy source drew, the FRAME decision for P >= 4 is a coin drawn from the source (Verus); candidate table == CPython vocabulary (Kani); '
